@@ -1,18 +1,26 @@
 CFG = {
     "id": "C09",
-    "level_text": "Proof over an executable Gallina model of hashmap, linkedhashmap, hashset, linkedhashset and hashbidimap as the Go code is written "
+    "level_text": "Proof over an executable Gallina model of hashmap, linkedhashmap, hashset, linkedhashset, hashbidimap as the Go code is written and, for "
+                  "treeset and treebidimap, over the red-black-tree model of C01 (C01/RB.v, C01/Containers.v: the same model C01/C02 verify and tie to the code), "
+                  "spoken to in C09's operation vocabulary (C09/TreeModel.v) "
                   "(Go's built-in map = duplicate-free association list whose insertion place is a parameter, so every iteration order is covered; "
                   "linked containers = table + ordering list with Remove going through an index search; bidi-map = two tables updated in the code's order; "
                   "set algebra = the code's loops). Theorems for every operation list, key/value type with a deciding == and every insertion place: refinement of "
                   "hashmap/hashset to the reference map/set (Keys/Values up to order), EQUAL outputs of linkedhashmap/linkedhashset and the insertion-ordered "
                   "reference (first-insertion order, re-put keeps position, remove+re-add goes last) with NoDup ordering and table keys = ordering list, "
                   "bidi-map always a bijection with the answers of the reference partial bijection, Union/Intersection/Difference = the mathematical result "
-                  "and a well-formed result set. The pre-repair Remove (ordering list searched with a coarser equality, D21) is proved to break the table/list "
+                  "and a well-formed result set. treeset / treebidimap (C09_treeset, C09_treebidimap, C09_algebra_tree; premises: C01's comparator laws and "
+                  "cmp a b = 0 -> a = b, true of the built-in int/string comparators): for every operation list the red-black containers give the reference "
+                  "set's / partial bijection's answers, Values()/Keys() strictly ascending and duplicate free, the two trees inverse of each other, and "
+                  "Union/Intersection/Difference written as the code's loops over the tree iterator give the mathematical result in a sorted tree set - corollaries of "
+                  "C01's refinement theorems through a bridge lemma (on sorted lists C01's reference sorted map IS the Go-map-like table with sorted insertion; "
+                  "C09_tree_abstract_agrees: those tables answer exactly as the red-black models). The pre-repair Remove (ordering list searched with a coarser equality, D21) is proved to break the table/list "
                   "agreement. The model is tied to the code on every run by replaying operation sequences on the real containers (int, string and pointer "
                   "keys, plain and Safe variants) and evaluating model and specification on the same sequences inside Coq.",
-    "level_note": "treebidimap and treeset sit on the red-black tree, which is modelled and proved by C01; for C09 they are modelled ABSTRACTLY as association "
-                  "lists with sorted insertion (the same theorems as the hash variants plus: tables stay strictly sorted) - that the real tree behaves like a "
-                  "sorted association list is C01's theorem, here it is only exercised by the harness. The ordering list is modelled at the level of its element "
+    "level_note": "treeset / treebidimap: the correspondence check (C09/Check.v) now evaluates the red-black models themselves (rb_set_step, rb_bidi_step, ts_union / "
+                  "ts_inter / ts_diff with the int comparator) against the recorded snapshots; the shapes of the trees inside treeset / treebidimap are not compared here (the red-black code itself is tied shape-for-shape by C02's check of redblacktree). treeset's "
+                  "Intersection/Union return the empty set when the two operands carry different comparators (a reflect pointer test): the model has one comparator, "
+                  "the branch is not modelled. The ordering list is modelled at the level of its element "
                   "sequence (Append, first-index search, Remove(index), Values); the pointer structure of doublylinkedlist is C07's. 'Operands are not modified' "
                   "and 'the result is a new set' cannot be stated in a functional model without a heap: the model's algebra functions only read their operands; "
                   "the clause is checked on the real code (operands and results re-read after mutating the other side). Keys for which == is not an "
@@ -20,13 +28,16 @@ CFG = {
     "harness": "c09",
     "theorems": [("C09.Props", [
         "C09_hashmap", "C09_hashset", "C09_linked", "C09_linked_set", "C09_linked_deepequal_refuted", "C09_bidi",
-        "C09_algebra", "C09_algebra_linked", "C09_linked_set_inv", "C09_tree_sorted"])],
+        "C09_algebra", "C09_algebra_linked", "C09_linked_set_inv", "C09_tree_sorted",
+        "C09_treeset", "C09_treebidimap", "C09_algebra_tree", "C09_tree_abstract_agrees"])],
     "trusted": [
         "Go's built-in map behaves as a finite map under == (premises eqb_spec, ins_ok of the theorems); its iteration order is arbitrary",
         "verif accessors VerifTableKeys/VerifRevKeys of linkedhashmap and linkedhashset, VerifNewSafe of hashset (add-only files, build tag verif)",
         "the numbering of keys by the harness (ordered key types are numbered in key order; two pointers to equal structs get two numbers)",
+        "the red-black-tree model of C01 (C01/RB.v, C01/Containers.v) and its refinement theorems, which C09_treeset / C09_treebidimap / C09_algebra_tree compose with "
+        "(the red-black code is tied to that model shape-for-shape by C02's check of redblacktree; here only the observable answers of treeset / treebidimap are compared)",
     ],
-    "modelled": ["red-black tree behind treebidimap/treeset (abstract sorted association list; see C01)",
+    "modelled": ["treeset.Intersection/Union with operands of different comparators (returns the empty set; reflect pointer comparison of the comparators)",
                  "doublylinkedlist behind the linked containers (element sequence only; see C07)",
                  "sync.Mutex of the Safe* wrappers (sequential delegation only; atomicity is C11)"],
     "assumptions": ["key and value types whose == decides equality (ints, strings, pointers; not NaN)"],
